@@ -186,12 +186,7 @@ def _run(sc, tape):
         http.ocean = OCEANS[0]
     w.extra_patches.append((H.HTTPClient, 'open', lambda self, url, data=None, method=None: http.open(self, url, data, method)))
 
-    class SimDateTime(real_dt.datetime):
-        @classmethod
-        def now(cls, tz=None):
-            return real_dt.datetime.fromtimestamp(clock.time())
-    w.extra_patches.append((times, 'datetime', types.SimpleNamespace(datetime=SimDateTime, timedelta=real_dt.timedelta,
-                                                                     date=real_dt.date)))
+    w.extra_patches.append((times, 'datetime', C.datetime_module(clock)))
     realdir = None
     if sc['backend'] in ('file', 'file-link'):
         cache_conf = {'type': 'file', 'directory_layout': 'tc'}
